@@ -102,7 +102,8 @@ fn value(i: usize) -> Val {
     match i {
         0 => Val::Int(7),
         1 => Val::name("New Name"),
-        2 => Val::dict(vec![("A", Val::Int(1))]),
+        // the text has as many closing as opening parentheses, but the first one closes before any opens
+        2 => Val::dict(vec![("A", Val::Int(1)), ("T", Val::Str(b"1) first (of two".to_vec()))]),
         3 => Val::dict(vec![("B", Val::Int(2))]),
         4 => Val::stream(vec![("S", Val::Int(1))], b"xyz".to_vec()),
         // a stream that moves everything written after it beyond 64 KiB (the field widths of the cross-reference
